@@ -175,13 +175,15 @@ func (p *Prompt) LastUsed() int {
 	}
 
 	prompt := p.formatLastPrompt(lines[len(lines)-1])
-	p.primaryCols = strutil.RealLength(prompt)
+	used := strutil.RealLength(prompt)
 
+	p.primaryCols = used
 	if p.primaryCols > 0 {
 		p.primaryCols--
 	}
 
-	return p.primaryCols
+	// All the columns of the prompt: the line starts on the next one.
+	return used
 }
 
 // SecondaryPrint prints the last cursor in secondary prompt mode,
